@@ -338,6 +338,14 @@ impl<T: AsRef<[u8]>> Frame<T> {
             }
 
             offset += self.security_header_len();
+
+            // The message integrity code at the end of the frame must fit as well.
+            offset += match self.security_level() {
+                0 | 4 => 0,
+                1 | 5 => 4,
+                2 | 6 => 8,
+                _ => 16,
+            };
         }
 
         if offset > self.buffer.as_ref().len() {
@@ -656,7 +664,10 @@ impl<T: AsRef<[u8]>> Frame<T> {
         } else {
             0
         };
-        &b[5..][..length]
+        // The key identifier follows the security control octet and the frame
+        // counter, which is absent when suppressed.
+        let start = if self.frame_counter_suppressed() { 1 } else { 5 };
+        &b[start..][..length]
     }
 
     /// Return the Key Source field.
